@@ -239,6 +239,14 @@ ROLES = (
      'construct': lambda t: (t['func'].get('trait') or '').endswith('ParallelIterator') and
      (t['func'].get('fn') or '').rsplit('::', 1)[-1] in ('max', 'max_by', 'min', 'min_by', 'max_by_key', 'min_by_key', 'reduce',
                                                         'reduce_with', 'find_any', 'find_first', 'collect')},
+    # the acceptance decision (reference: accept_score, which draws the random number through test_acceptance): the outermost
+    # unknown function that makes a float / bool draw and neither proposes a move nor evaluates the state
+    {'reference': 'optimisation::MCOptimiser::accept_score', 'crate': 'lib',
+     'construct': lambda t: (t['func'].get('trait') or '').endswith('Rng') and
+     (t['func'].get('fn') or '').rsplit('::', 1)[-1] in ('gen', 'gen_bool', 'gen_range', 'sample', 'gen_ratio') and
+     (t.get('dest') or {}).get('ty') in ('f64', 'f32', 'bool'),
+     'exclude': lambda t: (t['func'].get('trait') or '').endswith(('Basis', 'State')) and
+     (t['func'].get('fn') or '').rsplit('::', 1)[-1] in ('set_sampled', 'score', 'reset_value', 'set_value')},
 )
 
 
@@ -273,6 +281,20 @@ def _role_keepers(facts, known, helpers):
                     cand[k] = True
                     changed = True
         holders = [k for k, v in cand.items() if v]
+        if role.get('exclude'):
+            excl = {}
+            for k, b in helpers.items():
+                if b.crate_kind != role['crate']:
+                    continue
+                excl[k] = any(role['exclude'](t) for bb in [b] + list(facts.closures_of(b)) for _bi, t in bb.calls())
+            changed = True
+            while changed:
+                changed = False
+                for k in excl:
+                    if not excl[k] and any(excl.get(c) for c in calls[k]):
+                        excl[k] = True
+                        changed = True
+            holders = [k for k in holders if not excl.get(k)]
         outer = [k for k in holders if not any(k in calls[o] for o in holders if o != k)]
         if len(outer) == 1:
             keep.append(outer[0])
@@ -289,6 +311,14 @@ def normalise(facts, known):
     """Inline every call to a crate-local plain function that the reference tree does not have (see module doc).
     Bodies of such helpers that cannot be reached from outside the crate are taken out of facts.bodies (kept in
     facts.helpers); their closures stay and are reported by facts.closures_of(caller)."""
+    # `Trait::method` for every `<T as Trait>::method` of the reference tree
+    import re as _re
+    provided = set()
+    for kf in known:
+        m = _re.match(r'^<.* as ([A-Za-z0-9_:]+)(?:<.*>)?>::([A-Za-z0-9_]+)$', kf)
+        if m:
+            provided.add('%s::%s' % (m.group(1), m.group(2)))
+
     def is_helper(b):
         if b is None or b.is_closure:
             return False
@@ -301,6 +331,8 @@ def normalise(facts, known):
         if b.raw.get('def_kind') not in ('Fn', 'AssocFn'):
             return False
         key = ('%s::%s' % (b.crate_kind, b.path)) if b.crate_kind != 'lib' else b.path
+        if key not in known and b.path not in known and b.path in provided:
+            return False        # a method the reference tree implements per type, now provided by the trait: same role
         return key not in known and b.path not in known
     helpers = {k: b for k, b in facts.bodies.items() if is_helper(b)}
     facts.helpers = {}
